@@ -11,8 +11,10 @@
    arbitrary order (map iteration), until one gives an answer on which it stops:
      do / once : any answer that is not a network error (success or an HTTP error status);
      loc       : success only.
-   It gives up only after the whole sample has been tried.  Which hosts are unreachable
-   (D) or answer with an error status (E) during the request is chosen by the environment.
+   The statement bounds the number of hosts from above only: giving up before the whole
+   sample has been tried is not excluded (GivesUpLate below records what the code does today
+   and is not part of the checked property).  Which hosts are unreachable (D) or answer with
+   an error status (E) during the request is chosen by the environment.
    Hosts that failed with a network error may be reported to the passive health list
    (healthcheck.List.Failed); a request never reports a host it did not contact or that
    answered.
@@ -52,7 +54,7 @@ Attempt(kind, D, E, c) ==
   LET w == Min(Width(kind), Cardinality(hosts)) IN
   /\ Distinct(c) /\ Range(c) \subseteq hosts /\ Len(c) <= w
   /\ \A i \in 1..(Len(c) - 1) : c[i] \notin Stops(kind, D, E)           \* it went on only after a failure
-  /\ Len(c) = w \/ (Len(c) > 0 /\ c[Len(c)] \in Stops(kind, D, E))         \* it gave up only after the whole sample
+  /\ hosts # {} => c # <<>>                                               \* it tries before giving up
 \* reply class: "ok", "neterr" (network error of the last host tried), "err" (error status / empty cluster)
 ResOf(D, E, c) == IF c = <<>> THEN "err"
                   ELSE IF c[Len(c)] \in D THEN "neterr" ELSE IF c[Len(c)] \in E THEN "err" ELSE "ok"
@@ -88,12 +90,12 @@ Bounded(r) == IsReq(r) => /\ Len(r.c) <= Width(r.kind) /\ Distinct(r.c) /\ Range
 \* a single-attempt call on a non-empty list contacts exactly one host; nothing is contacted iff the list is empty
 ExactlyOne(r) == IsReq(r) => /\ (r.kind = "once" /\ r.hs # {}) => Len(r.c) = 1
                              /\ (r.hs = {}) <=> (r.c = <<>>)
-\* it gives up (fails without an answer it stops on) only after min(width, |list|) hosts
+\* NOT checked (stricter than the statement): today's code gives up only after min(width, |list|) hosts
 GivesUpLate(r) == (IsReq(r) /\ r.c # <<>> /\ r.c[Len(r.c)] \notin (r.hs \ (r.D \cup (IF r.kind = "loc" THEN r.E ELSE {}))))
                      => Len(r.c) = Min(Width(r.kind), Cardinality(r.hs))
 \* sampling n hosts yields min(n, size) distinct members
 SampleRule(r) == r.kind = "sample" => (r.T \subseteq r.hs /\ Cardinality(r.T) = Min(r.n, Cardinality(r.hs)))
-Good(r) == Bounded(r) /\ ExactlyOne(r) /\ GivesUpLate(r) /\ SampleRule(r)
+Good(r) == Bounded(r) /\ ExactlyOne(r) /\ SampleRule(r)
 
 Inv == Good(last) /\ hosts \subseteq Hosts
 EveryCall == [][Good(last')]_vars
